@@ -282,9 +282,13 @@ EXPECT_BODIES = {
     ("ParseCSVInt", "parse"): "return ensure_non_empty([int(x) for x in parse_csv(values)])",
     ("ParseCSVInt", "unparse"): "return <S0>.join([str(v) for v in values])",
     ("ParseErrorCodes", "parse"): "values = values.strip()\nif values == <S0>:\n    return set()\nreturn ensure_non_empty(set((int(x, <I0>) for x in parse_csv(values))))",
-    ("ParseErrorCodes", "unparse"): "if not values:\n    return <S0>\nreturn <S1>.join([f<F0> for v in values])",
+    ("ParseErrorCodes", "unparse"): "if not values:\n    return <S0>\nreturn <S1>.join([f<F0> if v < <I0> else f<F1> for v in values])",
     ("ParseTimeout", "parse"): "return parse_time(values, default_unit=<S0>)",
-    ("ParseTimeout", "unparse"): "if value < <I0>:\n    return f<F0>\nreturn f<F1>",
+    ("ParseTimeout", "unparse"): ("if value == value and abs(value) != float(<S0>):\n"
+                                  "    if value >= <I0> and value == int(value):\n        return f<F0>\n"
+                                  "    ms = value * <I1>\n"
+                                  "    if ms == int(ms) and ms / <I2> == value:\n        return f<F1>\n"
+                                  "return f<F2>"),
     ("ParseArrayLengths", "parse"): "if not values:\n    return {}\nvalues = <S0>.join(values.split())\nif not re.match(<S1>, values):\n    raise ValueError(f<F0>)\nmatches = re.findall(<S2>, values)\nreturn {name.strip(): ensure_non_empty([int(x) for x in parse_csv(sizes_lst or single_size)]) for name, sizes_lst, single_size in matches}",
     ("ParseArrayLengths", "unparse"): "return <S0>.join([f<F0> for k, vs in values.items()])",
 }
@@ -326,9 +330,12 @@ def fstring_parts(js, what):
                 if not all(isinstance(x, ast.Constant) for x in v.format_spec.values):
                     raise TranslateError(f"{what}: dynamic format spec")
                 spec = "".join(x.value for x in v.format_spec.values)
-            if v.conversion != -1:
-                raise TranslateError(f"{what}: conversion in f-string")
-            out.append(("fmt", ast.unparse(v.value), spec))
+            if v.conversion == -1:
+                out.append(("fmt", ast.unparse(v.value), spec))
+            elif v.conversion == ord("r") and spec == "":
+                out.append(("repr", ast.unparse(v.value), ""))
+            else:
+                raise TranslateError(f"{what}: unsupported conversion in f-string")
         else:
             raise TranslateError(f"{what}: unexpected f-string part")
     return out
@@ -397,34 +404,49 @@ def translate(src_text):
     L.append(f"Definition errcodes_int_base : Z := {ec_p['I'][0]}.")
     L.append(f"Definition errcodes_unparse_any : list Z := {coq_str(ec_u['S'][0])}.")
     L.append(f"Definition errcodes_join : list Z := {coq_str(ec_u['S'][1])}.")
-    parts = fstring_parts(ec_u["F"][0], "ParseErrorCodes.unparse")
-    if not (len(parts) == 2 and parts[0][0] == "lit" and parts[1] == ("fmt", "v", parts[1][2])):
-        raise TranslateError("ParseErrorCodes.unparse: expected f'<prefix>{v:<spec>}'")
-    spec = parts[1][2]
-    if not (len(spec) == 3 and spec[0] == "0" and spec[1].isdigit() and spec[2] in "xX"):
-        raise TranslateError(f"ParseErrorCodes.unparse: unsupported format spec {spec!r}")
-    L.append(f"Definition errcodes_fmt_prefix : list Z := {coq_str(parts[0][1])}.")
-    L.append(f"Definition errcodes_fmt_width : Z := {int(spec[1])}.")
-    L.append(f"Definition errcodes_fmt_upper : bool := {'true' if spec[2] == 'X' else 'false'}.")
+    # [f"<neg prefix>{-v:<spec>}" if v < <I0> else f"<prefix>{v:<spec>}" for v in values]
+    def ec_item(js, want_arg):
+        parts = fstring_parts(js, "ParseErrorCodes.unparse")
+        if not (len(parts) == 2 and parts[0][0] == "lit" and parts[1][0] == "fmt" and parts[1][1] == want_arg):
+            raise TranslateError(f"ParseErrorCodes.unparse: expected f'<prefix>{{{want_arg}:<spec>}}'")
+        spec = parts[1][2]
+        if not (len(spec) == 3 and spec[0] == "0" and spec[1].isdigit() and spec[2] in "xX"):
+            raise TranslateError(f"ParseErrorCodes.unparse: unsupported format spec {spec!r}")
+        return parts[0][1], int(spec[1]), spec[2] == "X"
+
+    npfx, nwidth, nupper = ec_item(ec_u["F"][0], "-v")
+    ppfx, pwidth, pupper = ec_item(ec_u["F"][1], "v")
+    L.append(f"Definition errcodes_neg_bound : Z := {ec_u['I'][0]}.   (* the rendering of v is the negative one when v < this *)")
+    L.append(f"Definition errcodes_neg_prefix : list Z := {coq_str(npfx)}.   (* followed by the digits of -v *)")
+    L.append(f"Definition errcodes_neg_width : Z := {nwidth}.")
+    L.append(f"Definition errcodes_neg_upper : bool := {'true' if nupper else 'false'}.")
+    L.append(f"Definition errcodes_fmt_prefix : list Z := {coq_str(ppfx)}.")
+    L.append(f"Definition errcodes_fmt_width : Z := {pwidth}.")
+    L.append(f"Definition errcodes_fmt_upper : bool := {'true' if pupper else 'false'}.")
     to_p = lit[("ParseTimeout", "parse")]
     to_u = lit[("ParseTimeout", "unparse")]
     L.append(f"Definition timeout_default_unit : list Z := {coq_str(to_p['S'][0])}.")
+    # if value == value and abs(value) != float(<S0>):
+    #     if value >= <I0> and value == int(value): return f"{int(value)}<large suffix>"
+    #     ms = value * <I1>
+    #     if ms == int(ms) and ms / <I2> == value: return f"{int(ms)}<small suffix>"
+    # return f"{value!r}<exact suffix>"
+    L.append(f"Definition timeout_unparse_inf_literal : list Z := {coq_str(to_u['S'][0])}.   (* float(<this>) *)")
     L.append(f"Definition timeout_unparse_threshold : Z := {to_u['I'][0]}.")
-    small = fstring_parts(to_u["F"][0], "ParseTimeout.unparse")
-    large = fstring_parts(to_u["F"][1], "ParseTimeout.unparse")
-    # f"{int(value * 1000)}ms"  /  f"{int(value)}s"
-    if not (len(small) == 2 and small[0][0] == "fmt" and small[0][2] == "" and small[1][0] == "lit"):
-        raise TranslateError("ParseTimeout.unparse: unexpected small-value rendering")
-    e = ast.parse(small[0][1], mode="eval").body
-    if not (isinstance(e, ast.Call) and isinstance(e.func, ast.Name) and e.func.id == "int" and len(e.args) == 1
-            and isinstance(e.args[0], ast.BinOp) and isinstance(e.args[0].op, ast.Mult)
-            and isinstance(e.args[0].left, ast.Name) and e.args[0].left.id == "value"):
-        raise TranslateError("ParseTimeout.unparse: expected int(value * <k>)")
-    L.append(f"Definition timeout_unparse_small_factor : Z := {int_const(e.args[0].right, 'ParseTimeout.unparse factor')}.")
-    L.append(f"Definition timeout_unparse_small_suffix : list Z := {coq_str(small[1][1])}.")
+    L.append(f"Definition timeout_unparse_small_factor : Z := {to_u['I'][1]}.")
+    L.append(f"Definition timeout_unparse_small_divisor : Z := {to_u['I'][2]}.")
+    large = fstring_parts(to_u["F"][0], "ParseTimeout.unparse")
+    small = fstring_parts(to_u["F"][1], "ParseTimeout.unparse")
+    exact = fstring_parts(to_u["F"][2], "ParseTimeout.unparse")
     if not (len(large) == 2 and large[0] == ("fmt", "int(value)", "") and large[1][0] == "lit"):
-        raise TranslateError("ParseTimeout.unparse: unexpected large-value rendering")
+        raise TranslateError("ParseTimeout.unparse: unexpected whole-seconds rendering")
+    if not (len(small) == 2 and small[0] == ("fmt", "int(ms)", "") and small[1][0] == "lit"):
+        raise TranslateError("ParseTimeout.unparse: unexpected whole-milliseconds rendering")
+    if not (len(exact) == 2 and exact[0] == ("repr", "value", "") and exact[1][0] == "lit"):
+        raise TranslateError("ParseTimeout.unparse: unexpected exact rendering")
     L.append(f"Definition timeout_unparse_large_suffix : list Z := {coq_str(large[1][1])}.")
+    L.append(f"Definition timeout_unparse_small_suffix : list Z := {coq_str(small[1][1])}.")
+    L.append(f"Definition timeout_unparse_exact_suffix : list Z := {coq_str(exact[1][1])}.")
     al_p = lit[("ParseArrayLengths", "parse")]
     al_u = lit[("ParseArrayLengths", "unparse")]
     L.append(f"Definition arrlen_ws_join : list Z := {coq_str(al_p['S'][0])}.")
